@@ -14,6 +14,12 @@ EXTENDS RxSched
 (* ------------------------------------------------------------------------*)
 (* Delivery of a notification to a node                                    *)
 (* ------------------------------------------------------------------------*)
+(* src/ops/complete_status.rs, StatusFuture::poll after the flag was found clear: register the waker *)
+(* ... and look at the flag again: if it was set meanwhile the park that follows is skipped             *)
+StatusRegister(st, n) ==
+  IF st.nodes[n].n # 0 THEN [st EXCEPT !.nodes[n].g = TRUE, !.stack = Tail(@)]       \* drop the "stpark" frame: Ready
+  ELSE [st EXCEPT !.nodes[n].g = TRUE]
+
 (* poll of an empty channel: Pending, also when the channel has ended (both poll functions map None to Pending) *)
 PollEmpty(nd) == NoneV
 
@@ -34,7 +40,10 @@ CallStep(st, fr) ==
       d == nd.d
       term == t = "E" \/ t = "C"
   IN
-  CASE k = "probe" ->
+  CASE k = "probe" /\ st.conc ->    \* multi-threaded instance: the callback contains a yield point of the harness,
+                                     \* so that two threads inside one callback are observable; entries carry the thread
+         Push(st, <<F1("pin", n), F0("yield"), Fr("plog", n, t, v, 0), F1("pout", n)>>)
+    [] k = "probe" ->
          LET st1 == [st EXCEPT !.log = Append(@, LogEntry(nd.a, t, v, st.now))]
              pid == st1.nprobe + 1
              pn == NextNode(st1)
@@ -50,7 +59,7 @@ CallStep(st, fr) ==
          THEN Push([st1 EXCEPT !.nodes[n].g = TRUE], SubjEmit(st1, 1, "N", I(W(v) + 10)))
          ELSE IF nd.b = 4 /\ t = "N"                \* reaction 4: peek() the BehaviorSubject from inside the callback, record what it says
          THEN LET vn == VNode(st1, PA(nd.c)) IN
-              IF RHeld(st1.nodes[vn]) THEN Fault(st1, "reentry")
+              IF RHeld(st1.nodes[vn]) THEN Busy(st1)
               ELSE [st1 EXCEPT !.log = Append(@, LogEntry(nd.a, "P", st1.nodes[vn].v, st.now))]
          ELSE st1
     [] k \in UnaryKinds ->
@@ -65,7 +74,7 @@ CallStep(st, fr) ==
          ELSE IF t = "E" THEN Push(st, <<CallE(d, v)>>) ELSE st
     [] k = "wlfA" ->
          IF t = "N" THEN
-           IF RHeld(st.nodes[nd.c]) THEN Fault(st, "reentry")
+           IF RHeld(st.nodes[nd.c]) THEN Busy(st)
            ELSE IF IsSome(st.nodes[nd.c].v) THEN Push(st, <<CallN(d, P(v, Unwrap(st.nodes[nd.c].v)))>>)
            ELSE st
          ELSE Push(st, <<Call(d, t, v)>>)
@@ -318,7 +327,7 @@ SubStep(st, fr) ==
              st2 == AddSub(st1, SubRec("conv", id, 0)) IN
          Push(st2, <<Sub(S1(x), id), F0("dropv"), F1("retsub", Len(st2.subs))>>)
     [] o = "status" ->
-         LET st1 == AddNode(AddNode(st, Node("statcell", 0)), [Node("status", n) EXCEPT !.c = id])
+         LET st1 == AddNode(AddNode(st, [Node("statcell", 0) EXCEPT !.g = FALSE]), [Node("status", n) EXCEPT !.c = id])
              st2 == [st1 EXCEPT !.statcells = Append(@, id)] IN
          Push(st2, <<Sub(S1(x), id + 1)>>)
     [] o = "share" ->             \* ShareOp: one cell per built operator value (AST x), held for the whole call
@@ -338,14 +347,24 @@ Step(st) ==
       f == fr.f
   IN
   CASE f = "call" -> CallStep(s0, fr)
+    (* A thread that finds a cell held by ANOTHER thread is never stepped here (MC_Conc disables it);  *)
+    (* finding it held by itself is the BorrowMutError / self-deadlock of re-entrant use.               *)
     [] f = "acq" ->
          IF WHeld(s0.nodes[fr.n]) THEN Fault(s0, "reentry")
-         ELSE [s0 EXCEPT !.nodes[fr.n].h = 1]
+         ELSE [s0 EXCEPT !.nodes[fr.n].h = s0.cur]
     [] f = "rel" -> [s0 EXCEPT !.nodes[fr.n].h = 0]
-    [] f = "acqr" ->
+    [] f = "acqr" ->             \* rc_deref(): a shared borrow of a RefCell, a plain lock of a Mutex
          IF RHeld(s0.nodes[fr.n]) THEN Fault(s0, "reentry")
+         ELSE IF s0.nodes[fr.n].m = "arc" THEN [s0 EXCEPT !.nodes[fr.n].h = s0.cur]
          ELSE [s0 EXCEPT !.nodes[fr.n].r = @ + 1]
-    [] f = "relr" -> [s0 EXCEPT !.nodes[fr.n].r = @ - 1]
+    [] f = "relr" ->
+         IF s0.nodes[fr.n].m = "arc" THEN [s0 EXCEPT !.nodes[fr.n].h = 0]
+         ELSE [s0 EXCEPT !.nodes[fr.n].r = @ - 1]
+    [] f = "yield" -> s0         \* a scheduling point of the multi-threaded instance, nothing else
+    [] f = "pin" ->              \* a thread enters the callback of probe node n
+         [s0 EXCEPT !.nodes[fr.n].n = @ + 1, !.overlap = @ \/ s0.nodes[fr.n].n > 0]
+    [] f = "pout" -> [s0 EXCEPT !.nodes[fr.n].n = @ - 1]
+    [] f = "plog" -> [s0 EXCEPT !.log = Append(@, LogEntry(s0.nodes[fr.n].a, fr.t, fr.v, s0.cur))]
     [] f = "body" -> CellBody(s0, fr.n, fr.t, fr.v)
     [] f = "bump" -> [s0 EXCEPT !.cnt[fr.x] = @ + 1]
     [] f = "sub" -> SubStep(s0, fr)
@@ -356,11 +375,20 @@ Step(st) ==
          LET items == IF Op(fr.x) = "repeat" THEN RepeatSeq(PV(fr.x), PA(fr.x)) ELSE PL(fr.x)
              i == fr.v[2]
              fin == Fin(s0, fr.n) IN
-         IF fin = 2 THEN Fault(s0, "reentry")
+         IF fin = 2 THEN Busy(s0)
          ELSE IF fin = 1 \/ i > Len(items) THEN Push(s0, <<CallC(fr.n)>>)
          ELSE Push(s0, (IF PB(fr.x) > 0 THEN <<Bump(PB(fr.x))>> ELSE <<>>)
                        \o <<CallN(fr.n, items[i]), Fr("iter", fr.n, "", I(i + 1), fr.x)>>)
-    [] f = "setstatus" -> [s0 EXCEPT !.nodes[fr.n].n = fr.x]
+    (* CompleteStatus (statcell node: n = flag, g = a waker is registered, b = a wake-up is pending) *)
+    [] f = "setstatus" ->         \* flag.store(..); waker.wake(): wakes only a waker that is registered
+         [s0 EXCEPT !.nodes[fr.n].n = fr.x, !.nodes[fr.n].b = IF s0.nodes[fr.n].g THEN 1 ELSE @, !.nodes[fr.n].g = FALSE]
+    [] f = "stpoll" ->            \* StatusFuture::poll: check the flag, then (yield point) register the waker, then park
+         IF s0.nodes[fr.n].n # 0 THEN s0
+         ELSE Push(s0, <<F0("yield"), F1("streg", fr.n), F1("stpark", fr.n)>>)
+    [] f = "streg" -> StatusRegister(s0, fr.n)
+    [] f = "stpark" ->            \* block_on: parked until woken, then poll again (MC_Conc disables the thread while b = 0)
+         IF s0.nodes[fr.n].b = 0 THEN Fault(s0, "hang")
+         ELSE Push([s0 EXCEPT !.nodes[fr.n].b = 0], <<F1("stpoll", fr.n)>>)
     [] f = "share2" ->            \* holding the share cell (node fr.n: g = connected, n = subject); next frame carries the observer
          LET cell == s0.nodes[fr.n]
              obsn == s0.stack[1].n
@@ -399,12 +427,13 @@ Stim(k, a, b, t, v) == [k |-> k, a |-> a, b |-> b, t |-> t, v |-> v]
 RECURSIVE HotCalls(_, _, _)
 HotCalls(slots, t, v) == MapCalls(slots, t, v)
 
-Inject(st, s) ==
-  LET st0 == [st EXCEPT !.log = <<>>, !.ret = U, !.timerlog = <<>>] IN
+(* InjectKeep: push the frames of one API call (the multi-threaded instance keeps one global log) *)
+InjectKeep(st0, s) ==
   CASE s.k = "sub" ->            \* subscribe AST a with a fresh probe (reaction code b), keep the handle in slot t
          LET pid == st0.nprobe + 1
              pn == NextNode(st0)
-             st1 == AddNode([st0 EXCEPT !.nprobe = pid], [Node("probe", 0) EXCEPT !.a = pid, !.b = s.b, !.c = s.a])
+             st1 == AddNode([st0 EXCEPT !.nprobe = pid, !.pcre = Append(@, <<st0.cur, st0.callno>>)],
+                            [Node("probe", 0) EXCEPT !.a = pid, !.b = s.b, !.c = s.a])
          IN Push([st1 EXCEPT !.handles = Append(@, 0)], <<Sub(s.a, pn), F1("sethandle", Len(st1.handles) + 1)>>)
     [] s.k = "emit" ->           \* notification (t, v) on hot subject a
          Push(st0, SubjEmit(st0, s.a, s.t, s.v))
@@ -414,7 +443,7 @@ Inject(st, s) ==
          Push(st0, <<Unsub(st0.handles[s.a])>>)
     [] s.k = "closed" ->         \* is_closed() on handle a
          LET c == Closed(st0, st0.handles[s.a]) IN
-         IF c = 2 THEN Fault(st0, "reentry") ELSE [st0 EXCEPT !.ret = B(c = 1)]
+         IF c = 2 THEN Busy(st0) ELSE [st0 EXCEPT !.ret = B(c = 1)]
     [] s.k = "squery" -> Push(st0, <<Fr("squery", s.a, "", U, s.b)>>)
     [] s.k = "sretain" -> Push(st0, <<F1("sretain", s.a)>>)
     [] s.k = "sunsub" -> Push(st0, <<F1("sunsub", s.a)>>)
@@ -427,6 +456,7 @@ Inject(st, s) ==
          ELSE [st0 EXCEPT !.ret = PollEmpty(nd)]
     [] s.k = "stq" ->             \* CompleteStatus accessors of the a-th status operator: 0 running, 1 completed, 2 failed
          [st0 EXCEPT !.ret = I(st0.nodes[st0.statcells[s.a]].n)]
+    [] s.k = "stwait" -> Push(st0, <<F1("stpoll", st0.statcells[s.a])>>)     \* CompleteStatus::wait_for_end
     [] s.k = "build" -> st0      \* assembling a pipeline performs no work
     [] s.k = "connect" ->        \* connect() on the published observable AST a; keep the returned subscription as a handle
          Push([st0 EXCEPT !.handles = Append(@, 0)], <<F2("connect", Len(st0.handles) + 1, s.a)>>)
@@ -440,6 +470,9 @@ Inject(st, s) ==
          [st1 EXCEPT !.handles = Append(@, Len(st1.subs))]
     [] s.k \in SchedStims -> SchedInject(st0, s)
     [] OTHER -> Fault(st0, "spec:unknown-stimulus")
+
+(* sequential suites: the observations of a stimulus start empty *)
+Inject(st, s) == InjectKeep([st EXCEPT !.log = <<>>, !.ret = U, !.timerlog = <<>>], s)
 
 Exec(st, s) == Run(Inject(st, s))
 
